@@ -916,32 +916,41 @@ func checkWholeOps(c *Ctx, r *Report) {
 		key := "gozxing.BitMatrix.SetRegion/whole"
 		r.Analysed(key)
 		bad := ""
-		const W, H = 130, 3
-		rs := int64((W + 31) / 32)
-		for _, left := range []int64{0, 1, 20, 31, 32, 33, 40, 63} {
-			for _, width := range []int64{1, 2, 12, 31, 32, 33, 34, 44, 60, 66} {
-				for _, top := range []int64{0, 1} {
-					for _, height := range []int64{1, 2} {
-						if left+width > W || top+height > H || bad != "" {
-							continue
-						}
-						m := &wordModel{words: map[int64]uint32{}}
-						res, err := c.rpfCall(fd, p, []*Val{vint(left), vint(top), vint(width), vint(height)}, ext(m, p, W, H, rs, 0, rs*H))
-						if err != nil {
-							bad = fmt.Sprintf("?SetRegion(%d,%d,%d,%d): %v", left, top, width, height, err)
-							continue
-						}
-						if len(res) != 1 || res[0].K != VNil {
-							bad = fmt.Sprintf("SetRegion(%d,%d,%d,%d) inside a %dx%d matrix returns an error", left, top, width, height, W, H)
-							continue
-						}
-						for y := int64(0); y < H && bad == ""; y++ {
-							for x := int64(0); x < rs*32; x++ {
-								got := m.words[y*rs+x/32]>>(uint(x)%32)&1 == 1
-								want := x >= left && x < left+width && y >= top && y < top+height
-								if got != want {
-									bad = fmt.Sprintf("SetRegion(%d,%d,%d,%d): module (%d,%d) is %v afterwards, expected %v", left, top, width, height, x, y, got, want)
-									break
+		// a wide matrix whose width is no multiple of 32, and two whose right edge is a word boundary: regions that end
+		// at the last module of the last row must not touch a word beyond the store
+		for _, dim := range [][2]int64{{130, 3}, {64, 2}, {96, 2}} {
+			W, H := dim[0], dim[1]
+			rs := (W + 31) / 32
+			for _, left := range []int64{0, 1, 20, 31, 32, 33, 40, 63, 64} {
+				for _, width := range []int64{1, 2, 12, 31, 32, 33, 34, 44, 60, 64, 66, 96} {
+					for _, top := range []int64{0, 1} {
+						for _, height := range []int64{1, 2} {
+							if left+width > W || top+height > H || bad != "" {
+								continue
+							}
+							m := &wordModel{words: map[int64]uint32{}}
+							res, err := c.rpfCall(fd, p, []*Val{vint(left), vint(top), vint(width), vint(height)}, ext(m, p, W, H, rs, 0, rs*H))
+							if err != nil {
+								bad = fmt.Sprintf("?SetRegion(%d,%d,%d,%d): %v", left, top, width, height, err)
+								continue
+							}
+							if len(res) != 1 || res[0].K != VNil {
+								bad = fmt.Sprintf("SetRegion(%d,%d,%d,%d) inside a %dx%d matrix returns an error", left, top, width, height, W, H)
+								continue
+							}
+							for wi := range m.words {
+								if wi < 0 || wi >= rs*H {
+									bad = fmt.Sprintf("SetRegion(%d,%d,%d,%d) on a %dx%d matrix writes word %d of a store of %d words", left, top, width, height, W, H, wi, rs*H)
+								}
+							}
+							for y := int64(0); y < H && bad == ""; y++ {
+								for x := int64(0); x < rs*32; x++ {
+									got := m.words[y*rs+x/32]>>(uint(x)%32)&1 == 1
+									want := x >= left && x < left+width && y >= top && y < top+height
+									if got != want {
+										bad = fmt.Sprintf("SetRegion(%d,%d,%d,%d): module (%d,%d) is %v afterwards, expected %v", left, top, width, height, x, y, got, want)
+										break
+									}
 								}
 							}
 						}
@@ -1550,11 +1559,11 @@ func checkGetRowWhole(c *Ctx, r *Report) {
 
 // S-HIST: short histories of a bit array folded from the source, storage included
 func checkBitArrayHistories(c *Ctx, r *Report) {
-	r.Rule("S-HIST", "bit arrays built the way callers build them - NewEmptyBitArray or NewBitArray(n) for n = 0, 1, 31, 32, 33, then 0..70 appended bits (AppendBit, and AppendBits in groups of 10) - are folded from the source with their real storage (constructor, ensureCapacity and makeArray included, so whatever spare words the growth policy leaves are there), then reversed: after every history the size is the number of bits put in, bit i of the store is the model's bit for i < size and clear for every i from size to the end of the store, and after Reverse bit i is the model's bit size-1-i", 1)
+	r.Rule("S-HIST", "bit arrays built the way callers build them - NewEmptyBitArray or NewBitArray(n) for n = 0, 1, 31, 32, 33, then 0..70 appended bits (AppendBit, and AppendBits in groups of 10) - are folded from the source with their real storage (constructor, ensureCapacity and makeArray included, so whatever spare words the growth policy leaves are there), then reversed: after every history the size is the number of bits put in, bit i of the store is the model's bit for i < size and clear for every i from size to the end of the store, and after Reverse bit i is the model's bit size-1-i; dst.AppendBitArray(src), for empty and non-empty dst, leaves dst holding both bit strings, src unchanged, and the two arrays independent (a bit flipped in one does not show in the other)", 1)
 	key := "gozxing.BitArray/histories"
 	need := map[string]*ast.FuncDecl{}
 	var pk *packages.Package
-	for _, n := range []string{"NewEmptyBitArray", "NewBitArray", "BitArray.AppendBit", "BitArray.AppendBits", "BitArray.Reverse"} {
+	for _, n := range []string{"NewEmptyBitArray", "NewBitArray", "BitArray.AppendBit", "BitArray.AppendBits", "BitArray.Reverse", "BitArray.AppendBitArray", "BitArray.Flip"} {
 		fd, p := c.funcDeclOf("", n)
 		if fd == nil {
 			r.AnchorLost("S-HIST", key, n+" not found")
@@ -1690,6 +1699,77 @@ func checkBitArrayHistories(c *Ctx, r *Report) {
 				folds++
 				if err != nil {
 					bad = fmt.Sprintf("?%s, next append: %v", what, err)
+				}
+			}
+		}
+	}
+	// two arrays: dst.AppendBitArray(src) copies - afterwards a change to one is not seen through the other
+	if bad == "" {
+		mk := func(start string, n int64, bits int64) (*Val, []bool, error) {
+			var args []*Val
+			if start == "NewBitArray" {
+				args = []*Val{vint(n)}
+			}
+			res, err := call(start, nil, args...)
+			if err != nil || len(res) != 1 {
+				return nil, nil, fmt.Errorf("%s: %v", start, err)
+			}
+			arr := res[0]
+			model := make([]bool, n)
+			for k := int64(0); k < bits; k++ {
+				b := pattern(int64(len(model)) + 3)
+				model = append(model, b)
+				if _, err := call("BitArray.AppendBit", arr, vbool(b)); err != nil {
+					return nil, nil, err
+				}
+			}
+			return arr, model, nil
+		}
+		for _, dstBits := range []int64{0, 1, 31, 40} {
+			for _, dstStart := range []string{"NewEmptyBitArray", "NewBitArray"} {
+				for _, srcBits := range []int64{0, 5, 32, 45} {
+					if bad != "" {
+						break
+					}
+					dst, dm, e1 := mk(dstStart, 0, dstBits)
+					src, sm, e2 := mk("NewEmptyBitArray", 0, srcBits)
+					what := fmt.Sprintf("%s with %d bits, AppendBitArray of an array of %d bits", dstStart, dstBits, srcBits)
+					if e1 != nil || e2 != nil {
+						bad = fmt.Sprintf("?%s: %v %v", what, e1, e2)
+						break
+					}
+					if _, err := call("BitArray.AppendBitArray", dst, src); err != nil {
+						bad = fmt.Sprintf("?%s: %v", what, err)
+						break
+					}
+					folds++
+					all := append(append([]bool{}, dm...), sm...)
+					if bad = check(what, dst, all, false); bad != "" {
+						break
+					}
+					if bad = check(what+": the source", src, sm, false); bad != "" {
+						break
+					}
+					if srcBits > 0 {
+						// flip a bit of the source, then one of the destination
+						if _, err := call("BitArray.Flip", src, vint(srcBits-1)); err != nil {
+							bad = fmt.Sprintf("?%s, Flip: %v", what, err)
+							break
+						}
+						if b2 := check(what+", then the source's last bit flipped: the destination", dst, all, false); b2 != "" {
+							bad = b2 + " - the two arrays share their storage"
+							break
+						}
+						sm[srcBits-1] = !sm[srcBits-1]
+						if _, err := call("BitArray.Flip", dst, vint(int64(len(all))-1)); err != nil {
+							bad = fmt.Sprintf("?%s, Flip: %v", what, err)
+							break
+						}
+						if b2 := check(what+", then the destination's last bit flipped: the source", src, sm, false); b2 != "" {
+							bad = b2 + " - the two arrays share their storage"
+							break
+						}
+					}
 				}
 			}
 		}
